@@ -529,6 +529,7 @@ func (env *Env) selector(e *Expr) Value {
 					// ghost variable of that package
 					sub := *env
 					sub.pkg = tp
+					sub.callee = nil
 					if g := sub.ghostVar(e.Op); g != nil {
 						return *g
 					}
